@@ -879,6 +879,10 @@ impl Deref for OsIpcSharedMemory {
 
     #[inline]
     fn deref(&self) -> &[u8] {
+        if self.ptr.is_null() {
+            // A zero-length region has no mapping (see `map_file`).
+            return &[];
+        }
         unsafe { slice::from_raw_parts(self.ptr, self.length) }
     }
 }
@@ -902,8 +906,11 @@ impl OsIpcSharedMemory {
         unsafe {
             let store = BackingStore::new(length);
             let (address, _) = store.map_file(Some(length));
-            for element in slice::from_raw_parts_mut(address, length) {
-                *element = byte;
+            // A zero-length region has no mapping: there is nothing to fill.
+            if !address.is_null() {
+                for element in slice::from_raw_parts_mut(address, length) {
+                    *element = byte;
+                }
             }
             OsIpcSharedMemory::from_raw_parts(address, length, store)
         }
@@ -913,7 +920,9 @@ impl OsIpcSharedMemory {
         unsafe {
             let store = BackingStore::new(bytes.len());
             let (address, _) = store.map_file(Some(bytes.len()));
-            ptr::copy_nonoverlapping(bytes.as_ptr(), address, bytes.len());
+            if !address.is_null() {
+                ptr::copy_nonoverlapping(bytes.as_ptr(), address, bytes.len());
+            }
             OsIpcSharedMemory::from_raw_parts(address, bytes.len(), store)
         }
     }
